@@ -256,6 +256,17 @@ pub fn parse(tier: usize, seed: u64, out: &mut Out) {
     for (op, f) in small_ops {
         enumerate_strings(&alpha_small, PARSE_SMALL_MAXLEN, &mut |s| emit_parse(out, op, "exhaustive", s, f));
     }
+    // (eighth wave, C18-h) ... and over the WHOLE 7-bit range: every one- and two-character ASCII text (16,512 per parser)
+    for (op, f) in small_ops {
+        for a in 0u8..128 {
+            let one = (a as char).to_string();
+            emit_parse(out, op, "ascii1", &one, f);
+            for b in 0u8..128 {
+                let two: String = [a as char, b as char].iter().collect();
+                emit_parse(out, op, "ascii2", &two, f);
+            }
+        }
+    }
     // every printed universe move (C16)
     let uni = universe();
     let mut printed: Vec<String> = Vec::with_capacity(uni.len());
